@@ -314,6 +314,8 @@ def _hist_inputs(seed):
         'c44': dense((4, 4), seed, 22),
         'r45': dense((4, 5), seed, 23, complex_=False),
         'f44': a.astype(np.float32),
+        'cA': dense((3, 4), seed, 24),
+        'cB': dense((5, 6), seed, 25),
     }
 
 
@@ -331,6 +333,27 @@ CALLS = {
 }
 EVENTS = ['p32', 'p64', 'mdft.clear', 'czt.clear'] + sorted(CALLS)
 
+# second alphabet: unequal sample counts A=(3,4) <-> B=(5,6), so that "the transform the other way" has a different
+# cache key, plus the gradient-backpropagation entry points, which share the executor's caches with the transforms
+CALLS2 = {
+    'fwd_AB':      ('mdft', 'dft2', 'cA', 2, (5, 6), (0, 0), True),
+    'inv_BA':      ('mdft', 'idft2', 'cB', 2, (3, 4), (0, 0), False),
+    'fwd_BA':      ('mdft', 'dft2', 'cB', 2, (3, 4), (0, 0), True),
+    'inv_AB':      ('mdft', 'idft2', 'cA', 2, (5, 6), (0, 0), False),
+    'bp_fwd_AB':   ('mdft', 'dft2_backprop', 'cB', 2, (3, 4), (0, 0), None),    # adjoint of dft2 A->B
+    'bp_inv_AB':   ('mdft', 'idft2_backprop', 'cB', 2, (3, 4), (0, 0), None),   # adjoint of idft2 A->B
+    'bp_fwd_BA':   ('mdft', 'dft2_backprop', 'cA', 2, (5, 6), (0, 0), None),
+    'bp_inv_BA':   ('mdft', 'idft2_backprop', 'cA', 2, (5, 6), (0, 0), None),
+    'fwd_AB_s':    ('mdft', 'dft2', 'cA', 2, (5, 6), (1, -0.5), True),
+    'inv_BA_s':    ('mdft', 'idft2', 'cB', 2, (3, 4), (1, -0.5), False),
+    'bp_fwd_AB_s': ('mdft', 'dft2_backprop', 'cB', 2, (3, 4), (1, -0.5), None),
+    'bp_inv_AB_s': ('mdft', 'idft2_backprop', 'cB', 2, (3, 4), (1, -0.5), None),
+    'c_fwd_AB':    ('czt', 'czt2', 'cA', 2, (5, 6), (0, 0), True),
+    'c_inv_BA':    ('czt', 'iczt2', 'cB', 2, (3, 4), (0, 0), False),
+}
+EVENTS2 = ['p32', 'p64', 'mdft.clear'] + sorted(CALLS2)
+ALLCALLS = {**CALLS, **CALLS2}
+
 
 class ExecState:
     def __init__(self, seed):
@@ -347,7 +370,7 @@ def h_fresh(init, seed):
 
 
 def h_events(init, hist, st):
-    return EVENTS
+    return EVENTS2 if init.get('alphabet') == 2 else EVENTS
 
 
 def h_apply(st, ev, R):
@@ -363,7 +386,7 @@ def h_apply(st, ev, R):
     elif ev == 'czt.clear':
         fttools.czt.clear()
     else:
-        ex, meth, ik, Q, so, sh, fwd = CALLS[ev]
+        ex, meth, ik, Q, so, sh, fwd = ALLCALLS[ev]
         x = st.inputs[ik].copy()
         out = R.call(getattr(getattr(fttools, ex), meth), x, Q, so, sh, sig=f'history:{meth}:exception')
         st.last = (ev, out, x)
@@ -382,7 +405,7 @@ def h_check(st, init, hist, R):
     ev, out, x = st.last
     if out is FAILED:
         return
-    ex, meth, ik, Q, so, sh, fwd = CALLS[ev]
+    ex, meth, ik, Q, so, sh, fwd = ALLCALLS[ev]
     R.expect_equal(x, st.inputs[ik], f'history:{meth}:input-mutated', f'{ev} modified its input array')
     prec = 32 if config.precision is np.float32 else 64
     # (a) same call on a fresh executor under the same precision: bit-identical values and dtype
@@ -393,6 +416,10 @@ def h_check(st, init, hist, R):
     sig = f'history:{meth}:p{prec}:depends-on-prior-calls'
     R.expect(out.dtype == want.dtype, sig + ':dtype', f'{ev} after {hist[:-1]}: dtype {out.dtype}, fresh executor gives {want.dtype}')
     R.expect_equal(out, want, sig, f'{ev} after {hist[:-1]} differs from the same call on a fresh executor')
+    if fwd is None:     # a backpropagation entry point: history-maker only (its adjointness is C06's subject)
+        R.nontrivial(len(hist) > 1)
+        R.outcome(f'backprop:p{prec}')
+        return
     # (b) the textbook sum
     eps = max(np.finfo(np.float32 if prec == 32 else np.float64).eps, np.finfo(x.real.dtype).eps)
     ref = ref_dft.dft2(x, Q, so, sh, fwd)
@@ -462,4 +489,6 @@ def plan(tier, seed):
                   chunk=2),
         HistoryUnit('executor_history', [{'prec': 64}], h_fresh, h_events, h_apply, h_check, h_canon, depth,
                     f'BFS to depth {depth} over events {EVENTS} on the shared module-level mdft / czt executors and config.precision; the call events are built to collide in the cache keys (Q=2 vs 2.0 vs tuple, samples int vs tuple, shift 0 vs (0,0), same geometry other direction, same key other precision, same key other input dtype); canonical state = (precision, cache keys with cached dtypes); invariant in every state: the call equals, bit for bit and in dtype, the same call on a fresh executor under the current precision, and equals the textbook sum'),
+        HistoryUnit('executor_history_backprop', [{'prec': 64, 'alphabet': 2}], h_fresh, h_events, h_apply, h_check, h_canon, depth,
+                    f'BFS to depth {depth} over events {EVENTS2}: transforms between unequal sample counts A=(3,4) and B=(5,6) in both directions (so that the opposite transform lives under a different cache key), the matrix-DFT gradient-backpropagation entry points (which share the cache), shifted variants, czt, precision switches and clear(); same canonical state and invariant as executor_history'),
     ]
